@@ -52,6 +52,13 @@ func VerifC33VirtualHost() {
 	next := &verifC33Rec{}
 	h := MakeVirtualHostBucketAddressingMiddleware(base, next)
 	r := &http.Request{Method: "PUT", Host: host, URL: &url.URL{Path: "/" + key}}
+	if verifBool("rawPath") {
+		// the client sent a percent-encoded spelling: URL.Path stays the decoded key
+		r.URL.RawPath = "/%2F" + key + "%7E"
+		r.URL.Path = "//" + key + "~"
+		key = "/" + key + "~"
+		n = len(key)
+	}
 	h.ServeHTTP(nil, r)
 	verifAssert(next.called == 1, "C33: next handler not called exactly once")
 	// reference: the same request sent path style
@@ -96,8 +103,8 @@ func VerifC33PathStyleUntouched() {
 // the fallback; exactly one handler runs.
 func VerifC33HostRouting() {
 	api, web := "s3.example", "web.example"
-	hosts := [5]string{"s3.example", "bkt.s3.example", "bkt.web.example", "web.example", "cdn.customer.org"}
-	hi := verifPick("host", 0, 4)
+	hosts := [8]string{"s3.example", "bkt.s3.example", "bkt.web.example", "web.example", "cdn.customer.org", "cdn-s3.example", "xs3.example", "notweb.example"}
+	hi := verifPick("host", 0, 7)
 	host := hosts[hi]
 	if verifBool("port") {
 		host += ":443"
